@@ -591,6 +591,11 @@ func (fr *frame) applyContract(fc *FuncContract, display string, names []string,
 		}
 		nh := c.newHeapConst(k, "_call", st.alloc)
 		st.heaps[k] = nh
+		if src, ok := c.oldSame[old]; (ok || old == c.heap(fr.entry, k)) && !hasMod(mods, k) {
+			// the callee leaves pre-existing objects alone and so did everything before it
+			_ = src
+			fr.markOldSame(k, nh)
+		}
 		fr.assumeR(frameFormula(k, nh, old, "", preAlloc, mods, strings.HasPrefix(k, "map!")))
 	}
 	rs := fr.havocResults(rts, st)
@@ -607,6 +612,15 @@ func (fr *frame) applyContract(fc *FuncContract, display string, names []string,
 		c.assumed["definitional abstraction (determinism of "+display+"): "+e.Text] = true
 	}
 	return rs
+}
+
+func hasMod(mods []modItem, key string) bool {
+	for _, m := range mods {
+		if m.sortKey == key {
+			return true
+		}
+	}
+	return false
 }
 
 func resultNames(sig *types.Signature) []string {
